@@ -221,13 +221,23 @@ func (s *SSHServer) Snapshot() (users, passwords, keys, methods []string) {
 }
 
 // GenClientKey returns a fresh ed25519 client key as (OpenSSH private key PEM, public key).
-func GenClientKey() ([]byte, ssh.PublicKey, error) {
+func GenClientKey() ([]byte, ssh.PublicKey, error) { return GenClientKeyEnc("") }
+
+// GenClientKeyEnc is GenClientKey with the private key protected by a passphrase (if not empty).
+func GenClientKeyEnc(passphrase string) ([]byte, ssh.PublicKey, error) {
 	pub, priv, err := ed25519.GenerateKey(rand.Reader)
 	if err != nil {
 		return nil, nil, err
 	}
 
-	blk, err := ssh.MarshalPrivateKey(priv, "verif")
+	var blk *pem.Block
+
+	if passphrase != "" {
+		blk, err = ssh.MarshalPrivateKeyWithPassphrase(priv, "verif", []byte(passphrase))
+	} else {
+		blk, err = ssh.MarshalPrivateKey(priv, "verif")
+	}
+
 	if err != nil {
 		return nil, nil, err
 	}
